@@ -26,13 +26,18 @@ def c09_prebuild(stage, pid, tier):
 def SPEC(tier):
     # handedness must be read from the LH bit alone: the depth-range macro is combined with both handedness settings
     cfgs = [('RH', []), ('LH', ['-DGLM_FORCE_LEFT_HANDED', '-DC09_EXPECT_LH']),
-            ('LH_ZO', ['-DGLM_FORCE_LEFT_HANDED', '-DGLM_FORCE_DEPTH_ZERO_TO_ONE', '-DC09_EXPECT_LH']), ('RH_ZO', ['-DGLM_FORCE_DEPTH_ZERO_TO_ONE'])]
+            ('LH_ZO', ['-DGLM_FORCE_LEFT_HANDED', '-DGLM_FORCE_DEPTH_ZERO_TO_ONE', '-DC09_EXPECT_LH']), ('RH_ZO', ['-DGLM_FORCE_DEPTH_ZERO_TO_ONE']),
+            ('RH_XYZW', ['-DGLM_FORCE_QUAT_DATA_XYZW']), ('RH_WXYZ', ['-DGLM_FORCE_QUAT_DATA_WXYZ'])]
     stages = []
     for name, flags in cfgs:
         full = name == 'RH' or tier == 'thorough'   # handedness only reaches lookAt: the quick LH build carries the lookAt/decompose file alone
         # thorough: the LH build repeats every target at 0.4 of the RH case counts (only lookAt can differ between the two builds)
-        st = Stage(name, [SRC_MAIN, SRC_XFORM] if full else [SRC_MAIN], flags=flags + ['-DC09_CFG="%s"' % name], only=None if full else 'lookAt',
-                   scale=0.4 if (name != 'RH' and tier == 'thorough') else 1.0)
+        quat_order = 'XYZW' in name or 'WXYZ' in name   # the quaternion-order macros only reach the targets that build or return quaternions
+        if quat_order:
+            st = Stage(name, [SRC_MAIN, SRC_XFORM], flags=flags + ['-DC09_CFG="%s"' % name], only='rotateNormalizedAxis|decompose_recompose|axisAngle_interpolate', scale=0.4)
+        else:
+            st = Stage(name, [SRC_MAIN, SRC_XFORM] if full else [SRC_MAIN], flags=flags + ['-DC09_CFG="%s"' % name], only=None if full else 'lookAt',
+                       scale=0.4 if (name != 'RH' and tier == 'thorough') else 1.0)
         st.prebuild = c09_prebuild
         stages.append(st)
     return {'stages': stages,
